@@ -310,6 +310,30 @@ fn fail(sub: &str, r: &Rendered, msg: String) -> Failure {
     Failure::new(sub, format!("{msg}\n---\n{}\n---", r.text), json!({"text": r.text}))
 }
 
+/// the whole document asked for as `Spanned<map>`: succeeds exactly when the plain map does, with the
+/// same value, and the range delivered is the root table's own span (`ImDocument::as_item().span()`)
+fn root_probe(text: &str) -> Result<(), Failure> {
+    let case = || json!({"text": text});
+    let plain: Result<BTreeMap<String, toml::Value>, _> = toml::from_str(text);
+    let spanned: Result<serde_spanned::Spanned<BTreeMap<String, toml::Value>>, _> = toml::from_str(text);
+    match (plain, spanned) {
+        (Ok(p), Ok(s)) => {
+            let doc = toml_edit::ImDocument::parse(text.to_string()).map_err(|e| Failure::new("root-twin", format!("toml::from_str succeeds but ImDocument fails: {e}\n---\n{text}\n---"), case()))?;
+            let own = doc.as_item().span();
+            if Some(s.span()) != own {
+                return Err(Failure::new("root-twin", format!("root asked for as Spanned<map> gets the range {:?}, the root table's span is {own:?}\n---\n{text}\n---", s.span()), case()));
+            }
+            if s.get_ref() != &p && !p.values().any(has_nan) {
+                return Err(Failure::new("root-twin", format!("Spanned<map> root decodes to another value than the plain map\n---\n{text}\n---"), case()));
+            }
+            Ok(())
+        }
+        (Err(_), Err(_)) => Ok(()),
+        (Ok(_), Err(e)) => Err(Failure::new("root-twin", format!("the plain map succeeds but Spanned<map> at the root fails: {e}\n---\n{text}\n---"), case())),
+        (Err(e), Ok(_)) => Err(Failure::new("root-twin", format!("the plain map fails ({e}) but Spanned<map> at the root succeeds\n---\n{text}\n---"), case())),
+    }
+}
+
 /// all table nodes of the expected tree that have no span by construction (dotted / implicit)
 fn has_spanless_table(t: &model::Tbl) -> bool {
     t.entries.iter().any(|(_, n)| match n {
@@ -500,6 +524,7 @@ fn prop(t: &mut Tape, st: &mut Stats) -> Result<(), Failure> {
     let nested: Result<BTreeMap<String, serde_spanned::Spanned<ValOrMap>>, _> = toml::from_str(text);
     let plain = plain.map_err(|e| fail("twin", &r, format!("plain map failed: {e}")))?;
     st.class("twin");
+    root_probe(text)?;
     let spanless_root = r.expected.entries.iter().any(|(_, n)| matches!(n, Node::Table(t) if matches!(t.kind, model::TblKind::Dotted | model::TblKind::Implicit)));
     match spanned {
         Ok(s) => {
@@ -816,6 +841,14 @@ pub fn run(args: Args) -> ! {
             rep.violation("regression", Some(&tape), &f);
         }
         rep.stats.merge(st);
+    }
+    // documents without any top-level key/value pair (the root table's span stays empty)
+    for text in ["", " ", "\t \t", "\n", "\r\n", "\n\n \n", "# c", "# c\n", " # c\r\n# d\n", "\u{feff}", "\u{feff}# c\n", "[a]\n", "[a]", "[[a]]\n", "[a]\nb = 1\n", "# c\n[a.b]\n", "\n\n[[a.b]]\nc = 1\n[[a.b]]\n", "[a]\n[b]\n[c.d]\n", "a = 1", " a = 1 \n", "\na.b = 1\n[c]\n"] {
+        rep.stats.class("root-twin.no-top-level-pairs");
+        rep.stats.eval();
+        if let Err(f) = root_probe(text) {
+            rep.violation("root", None, &f);
+        }
     }
     let run = run_tape("C14.spans", &prop, 3000, args.tier.pick(200_000, 2_000_000), args.seed, workers());
     finish_run(&mut rep, "spans", run);
